@@ -499,6 +499,11 @@ func moreIntrinsics() map[string]intrinsic {
 			}
 			panic(unsupported("xml Decode without harness provider vstubXMLDecode"))
 		},
+		"encoding/xml.NewTokenDecoder": func(e *Exec, a []Value) (Value, bool) {
+			cell := new(Value)
+			*cell = &Native{Kind: "xmldec", V: a[0]}
+			return cell, true
+		},
 		"encoding/xml.NewEncoder": func(e *Exec, a []Value) (Value, bool) {
 			cell := new(Value)
 			*cell = &Native{Kind: "xmlenc", V: a[0]}
